@@ -529,6 +529,7 @@ def check(ctx: Ctx):
     from ..rules import support
 
     support.check_field_types(ctx)
+    support.check_setter_total(ctx, "droplets.droplets.SphericalDroplet.volume@setter", "radius")
     ctx.expect("LAYOUT", 3)
     ctx.expect("FORMULA", 24)
     ctx.expect("ZERO", 8)
